@@ -103,3 +103,25 @@ Ltac home_script T HT :=
     inv_ok; finish_inv
   end.
 
+
+(* what a step of an association thread may change in the node: the pConnDone buffer, the connection map and
+   the accept-loop flag - never a closed flag, the context, the node's own threads *)
+Definition node_frame (nd nd' : node) : Prop :=
+  (cbuf (n_ctx nd) = [] -> n_ctx nd' = n_ctx nd) /\ n_done nd' = n_done nd /\ n_thr nd' = n_thr nd /\ n_stop nd' = n_stop nd
+  /\ n_main nd' = n_main nd /\ n_exit nd' = n_exit nd /\ n_lsock nd' = n_lsock nd
+  /\ cclosed (n_pcd nd') = cclosed (n_pcd nd) /\ ccap (n_pcd nd') = ccap (n_pcd nd).
+
+(* any thread T of the association, result Panic: only the send on a closed pConnDone survives *)
+Ltac panic_script T HT :=
+  let rst := fresh "rst" in let rfn := fresh "rfn" in let rpc := fresh "rpc" in
+  let rret := fresh "rret" in let rit := fresh "rit" in
+  destruct T as [rst rfn rpc rret rit];
+  unfold fn_ok in HT; cbn in HT;
+  destruct HT as [[? ?]|[? ?]]; subst;
+  match goal with
+  | H : thread_step _ _ _ _ _ _ = _ |- _ =>
+    unfold thread_step in H; cbn in H; destruct rst; try discriminate H;
+    do 8 (try destruct rpc as [|rpc]); cbn in H; try discriminate H;
+    unfold ch_close, ch_send, ch_cancel, ch_recv in H;
+    inv_ok; finish_inv
+  end.
